@@ -2,6 +2,7 @@ package c05
 
 import (
 	"strings"
+	"verif/checks/rep"
 
 	"verif/internal/ev"
 )
@@ -25,6 +26,17 @@ func families(c *ev.Ctx) {
 		`"🏆 \/ \b\f\n\r\t \\ \" "`,
 		"-0", "-0.0e-0", "0E+0", "10", "1.0", "true", "false", "null", `""`, "{}", "[]",
 	)
+	// n copies of one unit, n around every power of two up to 256 (no edits: verdict of the text only)
+	for _, u := range rep.Units {
+		for _, n := range rep.Counts {
+			for _, t := range rep.Texts(u, n) {
+				for _, tr := range []bool{false, true} {
+					compare(c, t, tr, "repetition family")
+					c.Eval(true)
+				}
+			}
+		}
+	}
 	c.Bound("family_corpus_items", len(corpus))
 	for _, doc := range corpus {
 		for _, tr := range []bool{false, true} {
